@@ -12,10 +12,10 @@ def s1(test, qchecks, tchecks, qshards=4, tshards=16, timeout_q=240, timeout_t=1
 TESTS = {
     "C01": [s1("TestC01_S1Conformance", 20000, 250000)],
     "C02": [s1("TestC02_Linearizable", 150, 3000, timeout_t=2400)],
-    "C03": [s1("TestC03_S1Visibility", 20000, 250000)],
-    "C04": [s1("TestC04_S1Bound", 15000, 200000)],
-    "C05": [s1("TestC05_S1Bookkeeping", 15000, 200000)],
-    "C06": [s1("TestC06_S1Events", 15000, 200000)],
+    "C03": [s1("TestC03_S1Visibility", 20000, 250000), s1("TestC03_S4Phases", 150, 3000, timeout_t=2400)],
+    "C04": [s1("TestC04_S1Bound", 8000, 150000), s1("TestC04_S3Bound", 2500, 60000, timeout_t=2400), s1("TestC04_S4Bound", 150, 3000, timeout_t=2400)],
+    "C05": [s1("TestC05_S1Bookkeeping", 8000, 150000), s1("TestC05_S3Bookkeeping", 2500, 60000, timeout_t=2400), s1("TestC05_S4Bookkeeping", 150, 3000, timeout_t=2400)],
+    "C06": [s1("TestC06_S1Events", 8000, 150000), s1("TestC06_S3Events", 2500, 60000, timeout_t=2400), s1("TestC06_S4Events", 150, 3000, timeout_t=2400)],
     "C07": [s1("TestC07_S1Justified", 20000, 250000)],
     "C08": [s1("TestC08_SingleFlight", 25000, 400000)],
     "C09": [s1("TestC09_WritePlacement", 25000, 400000)],
@@ -29,5 +29,5 @@ TESTS = {
     "C17": [s1("TestC17_SeqModel", 20000, 300000), s1("TestC17_Concurrent", 300, 6000, timeout_t=2400)],
     "C18": [s1("TestC18_Sketch", 60000, 1500000)],
     "C19": [s1("TestC19_S1SaveLoad", 15000, 200000)],
-    "C20": [s1("TestC20_S1Stats", 20000, 250000)],
+    "C20": [s1("TestC20_S1Stats", 20000, 250000), s1("TestC20_S4Stats", 150, 3000, timeout_t=2400)],
 }
